@@ -231,6 +231,19 @@ def run_plan(plan, seed, choices=None):
         pool_removals.append((sim.nlog, id(self_), str(host.endpoint.address), _sys._getframe(1).f_code.co_name))
         return orig_remove_pool(self_, host)
     set_knob(w.ccl.Session, 'remove_pool', remove_pool_logged)
+    down_spans = []        # (host address, seq at entry, seq at return) of every Cluster.on_down body (it runs on the executor)
+    body_on_down = w.ccl.Cluster.on_down
+    while hasattr(body_on_down, '__wrapped__'):
+        body_on_down = body_on_down.__wrapped__
+
+    @functools.wraps(body_on_down)
+    def on_down_span(self_, host, *a, **k):
+        s0 = sim.nlog
+        try:
+            return body_on_down(self_, host, *a, **k)
+        finally:
+            down_spans.append((str(host.endpoint.address), s0, sim.nlog))
+    set_knob(w.ccl.Cluster, 'on_down', w.ccl.run_in_executor(on_down_span))
     up_entries = []        # (seq, host address) of every Cluster.on_up call
     orig_on_up = w.ccl.Cluster.on_up
 
@@ -461,7 +474,11 @@ def run_plan(plan, seed, choices=None):
                     # starts a new reconnector for it.
                     began_before = any(ep[2] == 'STATUS_CHANGE' and ep[3][0] == 'UP' and ep[3][1] == addr and ep[0] < rm[0] for ep in fc.events_pushed) or \
                         any(e_[4] == 'success' and not e_[5] and e_[0] < seq for e_ in by_host.get(addr, []))
-                    V.add('C25/no-reconnect-removed', 'reconnect-after-remove' + (':up-handling-began-before-removal' if began_before else ''),
+                    # ... or down handling (Cluster.on_down, on the executor) that began before the removal completed and went on after
+                    # it: it starts a reconnector for the host that has just been removed (same root cause: transitions not serialised)
+                    down_before = any(a_ == addr and s0_ <= rm_done and s1_ > rm[0] for (a_, s0_, s1_) in down_spans)
+                    V.add('C25/no-reconnect-removed', 'reconnect-after-remove' + (':up-handling-began-before-removal' if began_before else (
+                        ':down-handling-began-before-removal' if down_before else '')),
                           'host %s was removed at seq %d but a reconnection attempt started at seq %d%s'
                           % (addr, rm[0], seq, ' (up handling for it had begun before the removal)' if began_before else ''))
                     break
@@ -517,7 +534,9 @@ def run_plan(plan, seed, choices=None):
                     pending_up = (
                         any(ep[2] == 'STATUS_CHANGE' and ep[3][0] == 'UP' and ep[3][1] == addr and ep[0] < rm_sq for ep in fc.events_pushed) or
                         any(e_[4] == 'success' and not e_[5] and e_[0] < sq for e_ in by_host.get(addr, [])))
-                    V.add('C25/notify-once', 'notified-after-remove:%s:%s' % (k, name) + (':up-handling-began-before-removal' if pending_up else ''),
+                    pending_down = any(a_ == addr and s0_ < sq and s1_ > rm_sq for (a_, s0_, s1_) in down_spans)
+                    V.add('C25/notify-once', 'notified-after-remove:%s:%s' % (k, name) + (':up-handling-began-before-removal' if pending_up else (
+                        ':down-handling-began-before-removal' if pending_down else '')),
                           '%s saw for host %s: %r' % (name, addr, ks))
                     break
                 elif k == 'up':
